@@ -1581,14 +1581,31 @@ def _if_convert(block: tuple) -> tuple:
     """``if c: v = a  else: v = b``  ==  ``v = a if c else b`` (both arms only assign the same plain locals), and
     ``v = d`` directly followed by ``if c: v = a``  ==  ``v = a if c else d``: the written form of a conditional value
     is immaterial"""
+    def is_set(x):
+        return isinstance(x, tuple) and len(x) == 3 and x[0] == "set" and isinstance(x[1], tuple) and x[1][:1] == ("v",)
+
     def only_sets(arm):
-        return bool(arm) and all(isinstance(x, tuple) and len(x) == 3 and x[0] == "set" and isinstance(x[1], tuple) and x[1][:1] == ("v",) for x in arm)
+        # assertions inside an arm are conditional assertions: they are hoisted as implications (see below)
+        return any(is_set(x) for x in arm) and all(is_set(x) or (isinstance(x, tuple) and len(x) == 2 and x[0] == "assert") for x in arm)
 
     def arm_env(arm):
         env: dict = {}
         for x in arm:
-            env[x[1]] = subst(x[2], env) if env else x[2]
+            if is_set(x):
+                env[x[1]] = subst(x[2], env) if env else x[2]
         return env
+
+    def hoisted(arm, guard):
+        """``if g: assert A``  ==  ``assert (not g) or A`` (with the arm's earlier assignments looked through)"""
+        env: dict = {}
+        res = []
+        for x in arm:
+            if is_set(x):
+                env[x[1]] = subst(x[2], env) if env else x[2]
+            else:
+                a = subst(x[1], env) if env else x[1]
+                res.append(("assert", mk_or([mk_not(guard), a])))
+        return res
     out: list = []
     for st in block:
         if isinstance(st, tuple) and st:
@@ -1597,10 +1614,12 @@ def _if_convert(block: tuple) -> tuple:
                 if only_sets(st[2]) and only_sets(st[3]):
                     a, b = arm_env(st[2]), arm_env(st[3])
                     if set(a) == set(b):
-                        for v in dict.fromkeys(x[1] for x in st[2]):
+                        out.extend(hoisted(st[2], st[1]))
+                        out.extend(hoisted(st[3], mk_not(st[1])))
+                        for v in dict.fromkeys(x[1] for x in st[2] if is_set(x)):
                             out.append(("set", v, mk_ite(st[1], a[v], b[v])))
                         continue
-                if only_sets(st[2]) and not st[3] and out:
+                if only_sets(st[2]) and all(is_set(x) for x in st[2]) and not st[3] and out:
                     a = arm_env(st[2])
                     k = len(a)
                     prev = out[-k:] if k <= len(out) else []
